@@ -3,7 +3,7 @@
 import json, os, re, subprocess, sys, tempfile, shutil
 
 ROOT = os.path.dirname(os.path.dirname(os.path.abspath(__file__)))
-GEN = os.path.join(ROOT, "spec", "gen")
+GEN = os.environ.get("VERIF_GEN_DIR", os.path.join(ROOT, "spec", "gen"))
 
 
 def load_ndjson(path):
@@ -65,12 +65,19 @@ def run_tlc(cfg, module, env=None, workers=4, timeout=600, extra=None, gen=GEN, 
     e.pop("_JAVA_OPTIONS", None)
     cmd = ["tlc", "-workers", str(workers), "-metadir", meta, "-config", cfg, module] + (extra or [])
     try:
-        r = subprocess.run(cmd, cwd=gen, env=e, capture_output=True, text=True, timeout=timeout)
-        out = r.stdout + r.stderr
-        rc = r.returncode
-    except subprocess.TimeoutExpired as ex:
-        out = (ex.stdout or b"").decode(errors="replace") if isinstance(ex.stdout, bytes) else (ex.stdout or "")
-        rc = -9
+        # own process group: a timeout must not leave the JVM behind
+        p = subprocess.Popen(cmd, cwd=gen, env=e, stdout=subprocess.PIPE, stderr=subprocess.STDOUT, text=True,
+                             start_new_session=True)
+        try:
+            out, _ = p.communicate(timeout=timeout)
+            rc = p.returncode
+        except subprocess.TimeoutExpired:
+            try:
+                os.killpg(p.pid, 9)
+            except OSError:
+                pass
+            out, _ = p.communicate()
+            rc = -9
     finally:
         shutil.rmtree(meta, ignore_errors=True)
     return rc, out
